@@ -33,10 +33,28 @@ func (m *Machine) verifrt(name string, args []Value, g *Term, site ssa.Instructi
 			panic(notEncoded("configuration value %q not given", n))
 		}
 		return ConstI(64, v)
-	case "Int", "IntI":
-		return m.input(nameI(), "int", BV(64))
-	case "Int64", "Int64I":
-		return m.input(nameI(), "int64", BV(64))
+	case "Int", "IntI", "Int64", "Int64I", "Bool", "BoolI":
+		kind, srt := "int", BV(64)
+		if strings.HasPrefix(name, "Bool") {
+			kind, srt = "bool", BoolSort
+		}
+		// an index that is a small-domain value selects among the indexed inputs
+		if strings.HasSuffix(name, "I") {
+			if it, ok := args[1].(*Term); ok && it.cases != nil && len(it.cases) > 1 {
+				base := m.argStr(args[0], name)
+				var res *Term
+				for i := len(it.cases) - 1; i >= 0; i-- {
+					v := m.input(fmt.Sprintf("%s[%d]", base, signed(it.cases[i].k, 64)), kind, srt)
+					if res == nil {
+						res = v
+					} else {
+						res = Ite(it.cases[i].c, v, res)
+					}
+				}
+				return res
+			}
+		}
+		return m.input(nameI(), kind, srt)
 	case "IntRange", "IntRangeI":
 		// a value in [lo,hi] as a small-domain case term: arithmetic on it is
 		// folded by the term layer instead of being bit-blasted
@@ -60,8 +78,6 @@ func (m *Machine) verifrt(name string, args []Value, g *Term, site ssa.Instructi
 		}
 		m.assume(And(Sge(v, ConstI(64, lo)), Sle(v, ConstI(64, hi))))
 		return mkCases(64, cs)
-	case "Bool", "BoolI":
-		return m.input(nameI(), "bool", BoolSort)
 	case "Str", "StrI":
 		return m.input(nameI(), "str", BV(strW))
 	case "Assume":
@@ -391,10 +407,12 @@ func jsonUnmarshal(m *Machine, args []Value, g *Term, site ssa.Instruction) Valu
 	// marshalling *T and T produce the same document
 	if pt, ok := st.Underlying().(*types.Pointer); ok && !types.Identical(st, et) {
 		sp := src.(*PtrV)
-		if len(sp.Alts) != 1 || !sp.Alts[0].G.IsTrue() {
-			panic(notEncoded("json: marshalled pointer with alternatives"))
+		// "null" leaves the target untouched; the targets in this code base are fresh zero variables
+		var merged Value = m.zero(pt.Elem())
+		for i := len(sp.Alts) - 1; i >= 0; i-- {
+			merged = mergeValue(sp.Alts[i].G, getPath(sp.Alts[i].Obj.val, sp.Alts[i].Path), merged)
 		}
-		src = getPath(sp.Alts[0].Obj.val, sp.Alts[0].Path)
+		src = merged
 		st = pt.Elem()
 	}
 	if !types.Identical(st, et) {
